@@ -309,7 +309,8 @@ let show_act (st : state) : string =
 let bld_step lz call_of (st, cid) (o : string) : (state * int) * string =
   if o = "H" then begin
     (* graceful stop with the connections held through shutdown_timeout: completes at the timeout *)
-    let busy = List.exists (fun wk -> wk.w_queue <> [] || wk.w_picked <> []) st.ws in
+    (* a worker counts the connections it has picked up (one guard each); what is still unread in its queue is dropped with it *)
+    let busy = List.exists (fun wk -> wk.w_picked <> []) st.ws in
     ((st, cid), if busy then "H=timeout" else "H=idle")
   end else
   if o = "B" then begin
@@ -323,7 +324,7 @@ let bld_step lz call_of (st, cid) (o : string) : (state * int) * string =
   if o = "G" then begin
     (* graceful stop as the last op: waits for the connections in progress (C06); the accept/worker model of this driver only says
        whether any is in progress *)
-    let busy = List.exists (fun wk -> wk.w_queue <> [] || wk.w_picked <> []) st.ws in
+    let busy = List.exists (fun wk -> wk.w_picked <> []) st.ws in
     ((st, cid), if busy then "G=held" else "G=idle")
   end else begin
     let nev = List.length st.trace in
@@ -452,7 +453,9 @@ let bldgen (line : string) : string =
   done;
   let st = fst !acc in
   if List.exists (fun ls -> ls.l_to <> None) st.lsts then emit "+600";
-  if !blocked then emit "b";
+  (* half of the graceful stops that end a scenario find the services still not ready: connections dispatched meanwhile sit unread
+     in the workers' queues *)
+  if !blocked && not ((has 'g' || has 'h') && rand 2 = 0) then emit "b";
   if (fst !acc).paused then emit "R";
   if has 'h' then emit "H" else if has 'g' then emit "G";
   Printf.sprintf "W=%d;L=%d;B=%s;S=%s;ops=%s" w l (List.assoc "B" fields) (try List.assoc "S" fields with Not_found -> "a") (String.concat " " (List.rev !out))
